@@ -3,7 +3,7 @@
 (* one operation executed by the real code, [pre, op, ret, post] with pre /  *)
 (* post the observed abstract state of the database.  TLC decides whether    *)
 (* WnStore explains it.                                                      *)
-EXTENDS WnStore, IOUtils
+EXTENDS WnStore, WnProject, IOUtils
 LOCAL FSE == INSTANCE FiniteSetsExt
 Recs == ndJsonDeserialize(IOEnv.TRACE_FILE)
 VARIABLE i
@@ -103,8 +103,23 @@ CollFails(r) ==
     Cl(r.ret = "ok", "ReturnValue")
     \cup Cl(\E p \in Perms(rs) : SameProj(AddSeq(st, [k \in DOMAIN rs |-> rs[p[k]]]), r.post),
             "StateAfter")
+\* add(path) for an arbitrary tree of directories / archives / files (WnProject):
+\* refused paths raise and change nothing; otherwise the resources found are added
+\* one after the other in one of the admissible orders
+AddOne(st, res) ==
+  IF SubSeq(res, 1, 4) = "lmf:" THEN AddResult(st, SubSeq(res, 5, Len(res)))
+  ELSE AddIliResult(st, SubSeq(res, 5, Len(res)))
+RECURSIVE AddAll(_, _)
+AddAll(st, rs) == IF rs = <<>> THEN st ELSE AddAll(AddOne(st, Head(rs)), Tail(rs))
+TreeFails(r) ==
+  LET st == ObsSt(r.pre)  tree == r.op[2] IN
+    IF Refused(tree)
+    THEN Cl(IsExc(r.ret), "RefusedPathRaises") \cup Cl(r.post.rawsha = r.pre.rawsha, "RefusedPathChangesNothing")
+    ELSE Cl(r.ret = "ok", "ReturnValue")
+         \cup Cl(\E rs \in Found(tree) : SameProj(AddAll(st, rs), r.post), "StateAfter")
 NormalFails(r) ==
   IF r.op[1] = "addcoll" THEN CollFails(r) ELSE
+  IF r.op[1] = "addtree" THEN TreeFails(r) ELSE
   LET st == ObsSt(r.pre) IN
     Cl(RetOK(st, r.op, r.ret), "ReturnValue")
     \cup Cl(SameProj(OpResult(st, r.op), r.post), "StateAfter")
